@@ -570,7 +570,7 @@ pub fn run(mode: Mode, cfg: &Cfg, rep: &mut Report) {
         exhaustive_pairs: 0,
         sampled_pairs: 0,
     };
-    rep.rule("every implemented conversion into/out of U4, U7, U14, Channel, KeyNumber, ControllerNumber: exhaustive over 8/16-bit sources and all newtype values; boundaries, powers of two +-1, truncation traps and seeded random values for 32/64/128-bit and pointer-sized sources; T::new over the whole repr range; all strings over {0-9,+,-,space,a} up to length 4 (quick in C18 mode: 3) plus boundary/leading-zero/overlong numerals; Display, Ord/Eq on all values (all pairs for 7-bit types); non-trivial = an input whose outcome is decided by the range check (accepted in-range value, rejected out-of-range value or expected panic), counted per distinct (type, source type, input)");
+    rep.rule("every implemented conversion into/out of U4, U7, U14, Channel, KeyNumber, ControllerNumber: exhaustive over 8/16-bit sources and all newtype values; boundaries, powers of two +-1, truncation traps and seeded random values for 32/64/128-bit and pointer-sized sources; T::new over the whole repr range; all strings over {0-9,+,-,space,a} up to length 4 (quick in C18 mode: 3) plus boundary/leading-zero/overlong numerals; Display, Ord/Eq on all values (all pairs for 7-bit types); non-trivial = an input whose outcome is decided by the range check (accepted in-range value, rejected out-of-range value or expected panic), counted per distinct (type, source type, input) ; every Unicode scalar value (thinned above U+3000 except digit blocks) is parsed alone and next to an ASCII digit");
 
     macro_rules! ins {
         ($T:ty; $($P:ty),*) => { $( conv_in::<$P, $T>(mode, &mut rng, nrand, rep, &mut st); )* };
